@@ -287,6 +287,22 @@ pub fn bool_scenario(n: usize, shape: &str, op: &str) -> (u64, u64, u64, i64) {
             let a = MultiPolygon(vec![Polygon::new(LineString(pts), vec![])]);
             (a, MultiPolygon(vec![rect(-1.0, 0.5, m as f64 + 1.0, 0.75)]))
         }
+        // DEEP NESTING: n concentric square rings (ring k: outer half-width 4(n-k), a hole of half-width 4(n-k)-2, the next
+        // ring strictly inside that hole) against a small square inside the innermost hole: result contours nested 2n deep
+        // (holes inside exteriors inside holes ...); no edge of one operand touches an edge of the other
+        "nest" => {
+            let rings: Vec<Polygon<f64>> = (0..n)
+                .map(|k| {
+                    let o = 4.0 * (n - k) as f64;
+                    let i = o - 2.0;
+                    let hole = LineString(vec![Coord { x: -i, y: -i }, Coord { x: -i, y: i }, Coord { x: i, y: i }, Coord { x: i, y: -i }, Coord { x: -i, y: -i }]);
+                    let mut p = rect(-o, -o, o, o);
+                    p.interiors_push(hole);
+                    p
+                })
+                .collect();
+            (MultiPolygon(rings), MultiPolygon(vec![rect(-1.0, -1.0, 1.0, 1.0)]))
+        }
         // a vertex of very high degree: n thin triangles share their right-most vertex (0,0)
         // (parts of a multipolygon may touch in a point), the other operand's triangle has it as its
         // left-most vertex and is traced last - walking past all the processed edges at (0,0)
